@@ -8,6 +8,7 @@ import (
 	"encoding/hex"
 	"encoding/json"
 	"fmt"
+	oe "github.com/ossrs/go-oryx-lib/errors"
 	"io"
 	"os"
 	"os/exec"
@@ -36,7 +37,7 @@ func (r *Rand) Intn(n int) int {
 	}
 	return int(r.U64() % uint64(n))
 }
-func (r *Rand) Bool() bool       { return r.U64()&1 == 1 }
+func (r *Rand) Bool() bool        { return r.U64()&1 == 1 }
 func (r *Rand) Chance(p int) bool { return r.Intn(100) < p } // p percent
 func (r *Rand) Bytes(n int) []byte {
 	b := make([]byte, n)
@@ -92,6 +93,8 @@ type Oracle struct {
 	Calls int
 }
 
+var traceOracle = os.Getenv("VERIF_TRACE") != ""
+
 func StartOracle(path string) (*Oracle, error) {
 	cmd := exec.Command(path)
 	stdin, err := cmd.StdinPipe()
@@ -114,6 +117,9 @@ func (o *Oracle) Call(parts ...string) string {
 	line := strings.Join(parts, " ")
 	if strings.ContainsAny(line, "\n\r") {
 		panic("newline in oracle request")
+	}
+	if traceOracle {
+		fmt.Fprintf(os.Stderr, "oracle<< %s\n", trunc(line, 300))
 	}
 	o.in.WriteString(line)
 	o.in.WriteByte('\n')
@@ -359,4 +365,21 @@ func LoadFindings(path string) []Finding {
 		os.Exit(2)
 	}
 	return fs
+}
+
+// ErrClass maps an error to the protocol's small enum through the library's own
+// errors.Cause (root cause through any wrapping).
+func ErrClass(err error) string {
+	if err == nil {
+		return "ok"
+	}
+	switch oe.Cause(err) {
+	case io.EOF:
+		return "err-eof"
+	case io.ErrUnexpectedEOF:
+		return "err-ueof"
+	case ErrInjected:
+		return "err-inject"
+	}
+	return "err"
 }
